@@ -282,7 +282,7 @@ inline Board synth_raw(Rng& rng, int t)
 {
     Board b;
     b.stm = rng.below(2);
-    b.halfmove = rng.below(4) == 0 ? rng.below(100) : 0;
+    b.halfmove = rng.below(4) == 0 ? rng.below(150) : 0;  // legal play ends at 150 (75-move rule); clocks above 127 exercise the 8-bit undo field
     b.fullmove = 1 + rng.below(80);
     int us = b.stm, them = 1 - us;
     switch (t)
